@@ -309,8 +309,9 @@ func (w *addrWorld) netOf(a tcpip.Address) tcpip.NetworkProtocolNumber {
 
 func (w *addrWorld) udpSend(s Step) {
 	dst := adDst[s.A%len(adDst)]
-	kind := s.B % 3
+	kind := s.B % 4
 	var local tcpip.Address
+	cnic := 0
 	var port uint16
 	w.nop++
 	n := int(s.D)
@@ -331,6 +332,15 @@ func (w *addrWorld) udpSend(s Step) {
 		}
 		port = 7100 + uint16(s.C%len(adLocal))
 		key = 200 + int(port)
+	case 3:
+		// bound to a port only, then connected through an explicit interface to a neighbour
+		// there; a later sendto elsewhere is routed by the table, not by that interface
+		if len(dst) != 4 {
+			return
+		}
+		cnic = 1 + s.C%2
+		port = 7200 + uint16(cnic)
+		key = 300 + cnic
 	}
 	if key >= 0 && w.socks[key] != nil {
 		ep = w.socks[key]
@@ -343,6 +353,18 @@ func (w *addrWorld) udpSend(s Step) {
 				ep.Close()
 				w.Probes["bind_failed"]++
 				return
+			}
+			if kind == 3 {
+				peer := tcpip.Address([]byte{10, 0, byte(cnic), 9})
+				w.begin()
+				e := ep.Connect(tcpip.FullAddress{NIC: tcpip.NICID(cnic), Addr: peer, Port: 9100})
+				w.service()
+				if e != nil {
+					ep.Close()
+					w.Probes["connect_through_interface_failed"]++
+					return
+				}
+				w.Probes["sockets_connected_through_an_interface"]++
 			}
 			w.socks[key] = ep
 		} else {
@@ -613,7 +635,7 @@ func (w *addrWorld) next() Step {
 	switch r.Pick(10, 6, 3, 2) {
 	case 0:
 		n := []int{0, 1, 3, 4, 5, 100, 101, 511, 1000, 1400}[r.Intn(10)]
-		return Step{Op: "udp", A: r.Intn(len(adDst)), B: r.Pick(4, 3, 4), C: r.Intn(12), D: int64(n)}
+		return Step{Op: "udp", A: r.Intn(len(adDst)), B: r.Pick(4, 3, 4, 2), C: r.Intn(12), D: int64(n)}
 	case 1:
 		return Step{Op: "in", A: r.Intn(3), B: r.Intn(3), C: r.Intn(8), D: int64(r.Intn(4))}
 	case 2:
